@@ -304,7 +304,7 @@ func (u *Unit) frameCheckWith(st *State, pos token.Pos, resBinds map[string]Valu
 						}
 					}
 					continue
-				case "chanLen", "wg":
+				case "chanLen", "wg", "wgWaits":
 					continue
 				case "calls":
 					f := oev.expr(call.Args[0])
